@@ -303,7 +303,7 @@ func cmdCheck(args []string) int {
 					"note": "obligation discharged on the baseline tree (ledger) and no longer discharged on this tree",
 				}
 				noCex := true
-				if a.Result == "sat" {
+				if rc0, has := replays[or.Func]; a.Result == "sat" || (has && len(rc0.Observables) == 0) {
 					if rc, ok := replays[or.Func]; ok {
 						vals, mtext := modelValues(r, q, replayDir)
 						data["model_values"] = vals
